@@ -142,6 +142,23 @@ def run_ops(ctx: _Ctx, ops: list) -> list:
                 o["needs_hi"] = [bool(x) for x in r.needs_hi]
                 o["needs_pkt"] = [bool(x) for x in r.needs_pkt]
                 o["nparts_in"] = len(op["parts"])
+            elif kind == "load":
+                c.preprocessor.load_insn_behavior()
+                o["nbeh"] = len(c.preprocessor.behaviors)
+            elif kind == "loaded_insn":
+                # the shipped route: behaviours come from the preprocessor's loader, not from the harness
+                parts_ = c.preprocessor.get_insn_behavior(op["name"])
+                if parts_ is None:
+                    c.preprocessor.load_insn_behavior()
+                    parts_ = c.preprocessor.get_insn_behavior(op["name"])
+                o["loaded_parts"] = list(parts_) if parts_ is not None else None
+                trees_ = [ctx.tree(p) for p in parts_]
+                pi = ParsedInsn(op["name"], trees_, list(parts_))
+                r = c.transform_insn(op["name"], pi)
+                o["insn_name"] = r.name
+                o["parts"] = [{"code": code, "meta": list(meta)} for code, meta in zip(r.rzil, r.meta)]
+                o["needs_hi"] = [bool(x) for x in r.needs_hi]
+                o["needs_pkt"] = [bool(x) for x in r.needs_pkt]
             elif kind == "fresh":
                 params = [
                     Parameter("pkt", get_value_type_by_c_type("HexPkt")),
